@@ -50,6 +50,17 @@ def workspace_fns(fb):
     return [f for f in fb.fns.values() if f.file and "/tests/" not in f.file]
 
 
+def _is_recv_buffer(fb, g, gm, a):
+    """`a` reads an element of the array that this function passed to recv_with_fds as the descriptor buffer."""
+    for bb, t, c in sites(g, name="recv_with_fds"):
+        args = gm.sym.arg_terms(bb)
+        if len(args) > 2:
+            buf = root_of(args[2])
+            if any(x == buf for x in subterms(a)):
+                return True
+    return False
+
+
 def run_on(fb, chk, tag=""):
     # ------------------------------------------------------------------ O1
     f = fb.one(name="recv_into_iovec", self_adt="Endpoint")
@@ -60,17 +71,19 @@ def run_on(fb, chk, tag=""):
     if len(rs) == 1:
         bb, t, c = rs[0]
         call = m.sym.call_at(bb)
-        closures = fb.closures_of(f)
+        # the wrapping call: File::from_raw_fd applied to an element of the descriptor array that was handed to the
+        # receive (in the function itself once the iterator chain is expanded, or in its closure)
+        fdbuf = root_of(m.sym.arg_terms(bb)[2])
         wraps = []
-        for cl in closures:
-            for cb, ct, cc in sites(cl, name="from_raw_fd"):
-                cm = must_of(fb, cl)
+        for g2 in [f] + fb.closures_of(f):
+            for cb, ct, cc in sites(g2, name="from_raw_fd"):
+                cm = must_of(fb, g2)
                 a = cm.sym.arg_terms(cb)[0]
                 r = root_of(a)
-                if (cc.get("gargs") or [""])[0].endswith("fs::File") and r[0] == "param":
-                    wraps.append(cl)
-        chk.check(len(wraps) == 1, "O1", tag + "recv:wrap", "each received descriptor becomes a File (closure over the array elements)",
-                  "received descriptors are not wrapped into File in the receiving function", f.loc())
+                is_file = (cc.get("gargs") or [""])[0].endswith("fs::File")
+                from_buf = (g2 is not f and r[0] == "param") or any(x == fdbuf for x in subterms(a))
+                if is_file and from_buf:
+                    wraps.append(g2)
         # iterator: fd_array.iter().take(n) with n = count returned by the receive
         take = sites(f, name="take")
         ok = False
@@ -84,6 +97,9 @@ def run_on(fb, chk, tag=""):
         # no early return between the receive and the wrapping
         cfg = m.cfg
         coll = [b for b, _t, _c in sites(f, name="collect")]
+        if not coll:
+            # expanded form: the loop that takes the descriptors one by one (`next` over take(iter(array)))
+            coll = [b for b, _t, _c in sites(f, name="next") if any(x == fdbuf for x in subterms(m.sym.arg_terms(b)[0]))]
         nxt = t.get("t")
         good = True
         if coll and nxt is not None:
@@ -179,6 +195,8 @@ def run_on(fb, chk, tag=""):
                 elif r[0] == "call" and r[1] == "dup":
                     src = "fresh duplicate"
                 elif r[0] == "param" and g.rec.get("dk") == "Closure" and "recv_into_iovec" in g.key:
+                    src = "received from the socket"
+                elif any(x[0] == "call" and x[1] == "next" for x in subterms(a)) and _is_recv_buffer(fb, g, gm, a):
                     src = "received from the socket"
                 elif r[0] == "param" and (g.trait or "").endswith("FromRawFd"):
                     src = "FromRawFd constructor: ownership transferred by contract"
